@@ -228,7 +228,7 @@ fn from_explored(ctx: &Ctx, ty: usize, auto: bool, rep: &mut Report) {
             msgs.push(RefMsg::Data { offset: off, data: c });
         }
     }
-    let cfg = Cfg { name: "c08", addr, foreign: addr ^ 1, auto, msgs, max_pending: 48, max_chunks: 3, max_pages: 1, max_states: 400_000 };
+    let cfg = Cfg { name: "c08", addr, foreign: addr ^ 1, auto, msgs, max_pending: if ctx.quick() { 48 } else { 64 }, max_chunks: if ctx.quick() { 3 } else { 5 }, max_pages: if ctx.quick() { 1 } else { 2 }, max_states: 2_000_000, lockstep: true };
     let mut scratch = Report::new();
     let ex = vsx::explore(&cfg, &mut scratch, &mut |_, _, _, _, _| {});
     rep.add("explored_prior_states", ex.nodes.len() as u64);
@@ -237,7 +237,8 @@ fn from_explored(ctx: &Ctx, ty: usize, auto: bool, rep: &mut Report) {
     }
     let n = ex.nodes.len();
     // quick: a stride sample that keeps every protocol state; thorough: every explored state
-    let stride = if ctx.quick() { (n / 120).max(1) } else { 1 };
+    let stride = 1usize; // every explored state in both tiers (the tiers differ in the exploration bounds)
+    let _ = n;
     let mut seen_states = [0usize; 13];
     for (i, node) in ex.nodes.iter().enumerate() {
         let st = node.pair.model.st;
@@ -284,6 +285,14 @@ fn from_abandoned_calls(ctx: &Ctx, ty: usize, auto: bool, rep: &mut Report) {
             }
         }
         drop(s1);
+        // every third abandonment is followed by a shut_down from a healthy controller (the documented way to
+        // power a sign down), so that "abandoned, then said goodbye to" is among the prior states
+        if fail_at % 3 == 2 {
+            let s2 = ctl::mk_sign(vb.clone(), addr, first_type);
+            let out = ctl::run_op(&s2, &Op::ShutDown, &[]);
+            calls.push(format!("shut_down:{}", if out.is_ok() { "ok" } else { "failed" }));
+            rep.count("abandoned_then_shut_down_prior_states");
+        }
         let prior = vb.borrow().sign(0).clone();
         let desc = format!("abandoned after message {} of [{}] as {}: {:?}", fail_at, calls.join(","), TYPES[first_type].name, prior.state());
         rep.count("abandoned_call_prior_states");
